@@ -140,6 +140,26 @@ def _garbage(n, seed):
     return bytes(out)
 
 
+def junk_fill(kind, n, seed=1):
+    """n bytes replacing a run of pages: 'zero', 'ff', or 'oggs' = pseudo-random garbage (never containing 'O' by itself) with a bare
+    capture pattern 'OggS' followed by a plausible-looking header start every 4096 bytes (libogg must reject each by CRC)."""
+    if kind == 'zero':
+        return bytes(n)
+    if kind == 'ff':
+        return b'\xff' * n
+    g = bytearray(_garbage(n, seed))
+    for o in range(100, n - 32, 4096):
+        g[o:o + 4] = b'OggS'
+        g[o + 4] = 0                      # stream structure version 0 so that libogg goes on to the CRC
+        g[o + 26] = 3 + (o // 4096) % 200  # some segments
+    return bytes(g)
+
+
+def hole_items(pages, first, last, kind, n):
+    """pages[first..last] (inclusive) replaced by n junk bytes"""
+    return list(pages[:first]) + [junk_fill(kind, n, first)] + list(pages[last + 1:])
+
+
 PAGE_OPS = ['drop', 'dup', 'swap', 'toend', 'gran-1', 'gran0', 'gran-2', 'granmax', 'granprev-1', 'bos', 'eos', 'cont',
             'serother', 'serfresh', 'seq+1', 'seq-1', 'truncbody', 'shortlace', 'garb1', 'garb27', 'garb65307', 'oggs', 'badcrc']
 
